@@ -329,7 +329,10 @@ impl Ctx {
                     *st.classes.entry((*c).to_string()).or_default() += 1;
                 }
                 if st.samples.len() < 3 && rep.nontrivial {
-                    st.samples.push(sample());
+                    // a sample is there to be read: a case of tens of kilobytes is shown by its head
+                    let v = sample();
+                    let text = v.to_string();
+                    st.samples.push(if text.len() > 4000 { json!({"sample_head": text.chars().take(400).collect::<String>(), "sample_bytes": text.len()}) } else { v });
                 }
                 Ok(())
             }
